@@ -30,7 +30,7 @@ Stored(d) == [f \in (DOMAIN d) \cap storedF |-> [i \in 1..Len(d[f]) |-> SV(d[f][
 
 \* a long value travels as [t, len, h (hash), head, tail]; `big` names the generated length of such values:
 \* <<id, field, length>>; the value written must have that length (what is read back must equal what was written)
-BigValue(d, f) == IF f = "j" THEN d.j[1].v.k ELSE d[f][1]
+BigValue(d, f) == IF f = "j" THEN d.j[1].v[1][2] ELSE d[f][1]      \* (an object is the sequence of its <<key, value>> entries)
 BigOk(e) ==
   IF ~Has(e, "big") THEN TRUE
   ELSE {i \in 1..Len(e.big) : LET b == e.big[i] IN
